@@ -9,17 +9,14 @@ import PnVerif.Lemmas.Mode
   Tie       checks/c14.py: exhaustive call histories on the real library, raw flag words of both layers
             read back after every call and compared with the model's.
 
-  `cfg : Cfg` says whether `ncmpi_fill_var_rec` returns the error of its own tests (`repaired`) or
-  drops it (`pinned`, the source as it is: defect F19).  Every theorem that does not mention a
-  particular `cfg` holds for both.
+  `cfg : Cfg` says (1) whether `ncmpi_fill_var_rec` returns the error of its own tests (`repaired`) or
+  drops it (`pinned`, the source as it is: defect F19) and (2) whether there is more than one process
+  (`pinnedMulti`).  Every theorem that does not mention a particular `cfg` holds for all of them.
+  Definitions used in the statements (`ModeInv`, `Start`, `specRun`, `droppedCheck`, `flushQuirk`) are
+  in Lemmas/Mode.lean.
 -/
 namespace PnVerif.Props.C14
 open PnVerif.Mode PnVerif.ModeSpec PnVerif.ModeLemmas
-
-/-- the three ways a file comes into being in the harness and in the property -/
-inductive Start : State → Prop
-  | created (hasRec : Bool) : Start (Mode.created hasRec)
-  | opened (write hasRec : Bool) : Start (Mode.openedFile write hasRec)
 
 /-! ## 1. invariants over ALL call histories (any length) -/
 
@@ -173,11 +170,6 @@ theorem matches_spec_pinned_counterexample_ub :
     (specStep (abs (run Cfg.pinned (created true) [.enddef])) (.fillVarRec .bad)).err = .enotvar := by
   decide
 
-/-- the only calls on which the pinned source differs from the repaired one -/
-def droppedCheck (s : State) : Call → Bool
-  | .fillVarRec v => s.opened && fillDispErr s.d v != .noerr
-  | _ => false
-
 theorem pinned_eq_repaired (s : State) (c : Call) (hc : droppedCheck s c = false) :
     step Cfg.pinned s c = step Cfg.repaired s c := by
   cases c <;> try rfl
@@ -196,11 +188,7 @@ theorem matches_spec_partial (s : State) (h : ModeInv s) (c : Call) (hc : droppe
   exact matches_spec s h c
 
 /-- refinement over whole histories (repaired source): running the model and abstracting is the
-    same as running the documented automaton -/
-def specRun (a : AState) : List Call → AState
-  | [] => a
-  | c :: cs => specRun (specStep a c).st cs
-
+    same as running the documented automaton (`specRun` = iterate `specStep`) -/
 theorem refines_all_histories (s0 : State) (h0 : Start s0) (cs : List Call) :
     abs (run Cfg.repaired s0 cs) = specRun (abs s0) cs := by
   have h : ModeInv s0 := by
@@ -232,13 +220,6 @@ theorem rejected_is_noop (cfg : Cfg) (s : State) (h : ModeInv s) (c : Call)
     cases hc <;> mode_all (first | (revert hr; mode_simp; done) | (revert hr; mode_simp; grind))
   · have : s.opened = false := by simpa using ho
     simp [step, this, ret]
-
-/-- The one place where the number of processes matters: a *collective varn* call whose argument
-    tests fail still joins the collective wait with a null request id, and `extract_reqs` then
-    completes the caller's single pending request (defect F4 of property C02 seen from here). -/
-def flushQuirk (cfg : Cfg) (s : State) : Call → Bool
-  | .rw _ true _ _ _ true => cfg.multi && (s.nGet == 0 && s.nPut == 1 || s.nPut == 0 && s.nGet == 1)
-  | _ => false
 
 set_option maxHeartbeats 4000000 in
 /-- stronger than `rejected_is_noop`: any call that returns an error, other than close and abort
